@@ -11,9 +11,12 @@ ASSUMPTIONS = ["diagonal dominance keeps every diagonal candidate nonzero: check
 def run(ctx):
     q = ctx.quick()
     recs = []
-    for i, P in enumerate([1, 2, 4]):
-        recs += S.sweep(ctx, 120 if q else 3000, 40 if q else 160, precs="ds", drivers=("gssvx",), flavour="asan",
-                        force={"symm": 1, "colperm": 2, "u": 0.0, "dominant": 1, "nprocs": P, "evlog": 1, "stype": "NC",
+    # three populations: dominant in both senses with a positive diagonal (diagonal = column maximum), and dominant by rows only /
+    # by columns only with diagonal entries of either sign and rows (columns) rescaled, where the diagonal is usually NOT the
+    # largest candidate, so that the preference for the diagonal at threshold 0 is what keeps the pivots on it.
+    for i, (P, dom) in enumerate([(1, 1), (2, 1), (4, 1), (1, "row"), (2, "row"), (4, "row"), (3, "col")]):
+        recs += S.sweep(ctx, 70 if q else 1500, 40 if q else 160, precs="dszc" if dom != 1 else "ds", drivers=("gssvx",), flavour="asan",
+                        force={"symm": 1, "colperm": 2, "u": 0.0, "dominant": dom, "nprocs": P, "evlog": 1, "stype": "NC",
                                "kind": ["random", "band", "grid", "arrow", "forest", "tridiag", "blockdiag", "dense"]}, seed_offset=600 + i)
     S.judge(ctx, recs, ["wfL", "wfU", "permr", "permc", "lower", "upper", "lu", "diag", "resid"], "symmetric-mode")
     neq = 0
@@ -27,5 +30,5 @@ def run(ctx):
             ctx.violation("perm_r!=perm_c", "symmetric mode, u=0, diagonally dominant: perm_r differs from perm_c (n=%d P=%d)" % (r["cfg"]["n"], r["cfg"]["nprocs"]), S.replay_blob(r))
         for b in [x for x in r.get("evmon", []) if "LUSUP" in x][:1]:
             ctx.violation("lusup-slot-overrun", "fill exceeded the symmetric prediction: " + b, S.replay_blob(r))
-    S.coverage(ctx, recs, "SymmetricMode=YES, ColPerm=MMD_AT_PLUS_A, diag_pivot_thresh=0, strictly row+column diagonally dominant values.")
+    S.coverage(ctx, recs, "SymmetricMode=YES, ColPerm=MMD_AT_PLUS_A, diag_pivot_thresh=0; values strictly row+column diagonally dominant (positive diagonal), or dominant by rows only / columns only with mixed-sign (complex: mixed-phase) diagonals and power-of-two row/column scalings.")
     ctx.coverage["perm_mismatches"] = neq
